@@ -5,6 +5,7 @@ import (
 	"math/rand"
 	"runtime"
 	"sync"
+	"sync/atomic"
 	"time"
 
 	"github.com/ThreeDotsLabs/watermill/message"
@@ -259,6 +260,8 @@ func runC03(c *Ctx) error {
 	}
 	var amu sync.Mutex
 	var anomalies []anomaly
+	var hammerHung int32
+	var hungAt anomaly
 	const G = 6
 	Parallel(16, func(w int) {
 		for k := w; k < rounds; k += 16 {
@@ -287,9 +290,27 @@ func runC03(c *Ctx) error {
 				}(a)
 			}
 			close(start)
-			wg.Wait()
+			if atomic.LoadInt32(&hammerHung) != 0 {
+				return
+			}
+			if !WaitOrHang(waitWG(&wg)) {
+				// a settling call that does not return: "no call blocks"
+				if atomic.CompareAndSwapInt32(&hammerHung, 0, 1) {
+					amu.Lock()
+					hungAt = anomaly{kind, op, ""}
+					amu.Unlock()
+				}
+				return
+			}
 		}
 	})
+	if atomic.LoadInt32(&hammerHung) != 0 {
+		r := T.NewRun("hammer/"+hungAt.kind, map[string]any{"kind": hungAt.kind})
+		r.Key = fmt.Sprintf("hammer-hung/%v", hungAt)
+		r.NonTrivial = true
+		r.Emit("call", "g", "g1", "op", hungAt.op)
+		r.Emit("hung", "what", fmt.Sprintf("%d goroutines called %s on one fresh message (kind %s) at the same time and at least one call never returned", G, hungAt.op, hungAt.kind))
+	}
 	for _, an := range anomalies {
 		r := T.NewRun("hammer/"+an.kind, map[string]any{"kind": an.kind})
 		r.Key = fmt.Sprintf("hammer/%v", an)
